@@ -68,6 +68,7 @@ forwarded (or receives bytes) later joined the tunnel that appeared meanwhile; a
 def attachedTs (ts : TunnelState) (late : Late) (att : Attach) : TunnelState :=
   match ts, late with
   | .none, .route m n _ => if att == .source then ts else .remote m n
+  | .none, .window m => if att == .source then ts else .bridge m false
   | _, _ => ts
 
 /-- The property when the tunnel state changes during the request: the acknowledgement is judged against the
@@ -85,8 +86,15 @@ def Outcome.obsDyn (o : Outcome) (ts : TunnelState) (late : Late) : Obs :=
     data := match o.attach, ts, late with
       | .target, .bridge _ served, _ => !served
       | .target, .none, .route _ _ _ => true
+      | .target, .none, .window _ => true
       | .forward _, _, _ => true
       | _, _, _ => false }
+
+/-- The property on the observation of "the mapping was revoked (the revocation returned), whatever other
+updates of the record were in flight; afterwards somebody presents credentials for a tunnel of that mapping":
+the record still says revoked and the request is refused. -/
+def holdsRevoked (recordRevoked : Bool) (o : Obs) : Bool :=
+  recordRevoked && o.ack == .fail && o.att == .none && !o.data
 
 /-- What the session manager's bookkeeping guarantees about a connection (established by the auth handlers,
 property C03): a client id is set only together with the authenticated flag. -/
